@@ -109,3 +109,15 @@ Theorem reads_never_panic : forall n d,
   (d_st (snd (read_uvarint d)) = SPanic -> d_st d = SPanic).
 Proof. intros n d. split; [exact (read_le_st n d) | exact (read_uvarint_st d)]. Qed.
 Print Assumptions reads_never_panic.
+
+(** FINDING (unchanged tree): Cell.Decode returns a value for ids without a face; querying
+    its bound panics.  The full-strength statement "every decoded Cell can be queried" is false: *)
+Theorem decode_usable_cell_refuted :
+  exists bs id, bytes_ok bs /\ decode_cell bs = Ok id /\ cell_rect_bound_axes id = Panic.
+Proof. exact C15_Total.decode_usable_cell_refuted. Qed.
+Print Assumptions decode_usable_cell_refuted.
+
+(** what does hold: ids below 6*2^61 (every valid id) have their axis row *)
+Theorem decode_usable_cell_valid_ids : forall id, 0 <= id < 6 * 2 ^ 61 -> cell_rect_bound_axes id <> Panic.
+Proof. exact cell_rect_bound_axes_valid. Qed.
+Print Assumptions decode_usable_cell_valid_ids.
